@@ -42,6 +42,21 @@ CHECKS = {
               "z3. Outside: executor internals, bodies beyond the enumeration, eq-sort constructors, containers, primitive filters."),
         technique="SMT (z3) translation validation of the plans emitted by the real planner, over a symbolic database; witnesses replayed on the real binary",
     ),
+    "C03": dict(
+        engine="E2-planval",
+        category="translation_validation",
+        text=("Semi-naive = naive, decided in two parts. (E2) While the real engine runs generated histories (two rulesets "
+              "interleaved, rows written at top level and by rules between runs, seminaive and :naive rules) the hook dumps each "
+              "run's last_run_at, next_ts, the variant requests and plans; z3 decides for every dumped variant set that its "
+              "timestamp constraints cover every match containing a new row, and for every plan set that no new match is lost and "
+              "none is spurious, over all databases and timestamps within the bounds; the window chain "
+              "(last_run_at == previous next_ts) is checked on every trace. (E1) Kani decides that the timestamp range lookups "
+              "turning `ts >= t` / `ts < t` into row ranges are exact."),
+        design_ref="DESIGN.md §2 C03",
+        note=("Bounds as C02; histories <= 6 runs over 2 rulesets. Outside: re-timestamping of rebuilt / refreshed / container rows, "
+              "schedules beyond the enumerated ones, counter overflow."),
+        technique="SMT (z3) validation of the semi-naive variant sets and plans dumped from the real engine + Kani/CBMC on the timestamp range kernels",
+    ),
     "C16": dict(
         category="model_checking",
         text=("Bounded model checking (Kani/CBMC) of the table store's index / scan kernels from arbitrary symbolic states: "
